@@ -85,6 +85,28 @@ def run_doc(case: dict) -> core.CaseResult:
         h = core.h64((cls, tree.pr(cp), mode))
         res.states.add(h)
         res.nontrivial.add(h)
+    # one deepcopy call that reaches a model and one of its own parts (copy of a tuple / list / dict of models)
+    for path, m in models:
+        if isinstance(m, M.RawTokenModel):
+            continue
+        kids = [c for _, c in tree.children(m) if not isinstance(c, R.Repeated)][:3]
+        for c in kids:
+            for shape in ('tuple', 'dict'):
+                res.transitions += 1
+                try:
+                    if shape == 'tuple':
+                        a, b = copy.deepcopy((m, c))
+                    else:
+                        d = copy.deepcopy({'part': c, 'whole': m})
+                        a, b = d['whole'], d['part']
+                except Exception as e:  # noqa
+                    res.fail(f'C11/deepcopy-of-model-with-its-part-raises[{type(m).__name__}]',
+                             where0 + f'copy.deepcopy of a {shape} holding {"/".join(path) or "root"} and its child {type(c).__name__} raises '
+                             f'{type(e).__name__}: {e}')
+                    return res
+                if not check_copy(m, a, res, where0 + f'{shape} copy, whole {"/".join(path) or "root"}: ', type(m).__name__) or \
+                        not check_copy(c, b, res, where0 + f'{shape} copy, part of {"/".join(path) or "root"}: ', type(c).__name__):
+                    return res
     if tree.snapshot(root) != doc_snap:
         res.fail('C11/copying-changed-the-original', where0 + 'the document snapshot changed while copying')
         return res
